@@ -641,6 +641,7 @@ func lexerRecord(args []string) error {
 			toks = append(toks, []any{name, x, l, c, ch})
 		}
 		lexerr := false
+		nlexerr := 0
 		panicked := ""
 		func() {
 			defer func() {
@@ -650,11 +651,12 @@ func lexerRecord(args []string) error {
 			}()
 			_, _, err := transformer.TransformModularDSLToProto(inp.Text)
 			if err != nil {
-				lexerr = strings.Contains(err.Error(), "token recognition error")
+				nlexerr = strings.Count(err.Error(), "token recognition error at: ")
+				lexerr = nlexerr > 0
 			}
 		}()
 		transformer.VerifTokens = nil
-		return w.write(map[string]any{"id": inp.ID, "text": inp.Text, "tokens": toks, "lexerr": lexerr, "panic": panicked})
+		return w.write(map[string]any{"id": inp.ID, "text": inp.Text, "tokens": toks, "lexerr": lexerr, "nlexerr": nlexerr, "panic": panicked})
 	})
 }
 
